@@ -28,7 +28,7 @@ from typing import Callable, Optional, Union, Any  # noqa: F401
 
 import traceback
 
-from ssh_audit.kexdh import KexDH, KexDHException, KexGroup1, KexGroup14_SHA1, KexGroup14_SHA256, KexCurve25519_SHA256, KexGroup16_SHA512, KexGroup18_SHA512, KexGroupExchange_SHA1, KexGroupExchange_SHA256, KexNISTP256, KexNISTP384, KexNISTP521
+from ssh_audit.kexdh import KexDH, KexGroup1, KexGroup14_SHA1, KexGroup14_SHA256, KexCurve25519_SHA256, KexGroup16_SHA512, KexGroup18_SHA512, KexGroupExchange_SHA1, KexGroupExchange_SHA256, KexNISTP256, KexNISTP384, KexNISTP521
 from ssh_audit.ssh2_kex import SSH2_Kex
 from ssh_audit.ssh2_kexdb import SSH2_KexDB
 from ssh_audit.ssh_socket import SSH_Socket
@@ -161,12 +161,12 @@ class HostKeyTest:
 
                 # Do the initial DH exchange.  The server responds back
                 # with the host key and its length.  Bingo.  We also get back the host key fingerprint.
-                kex_group.send_init(s)
                 raw_hostkey_bytes = b''
                 try:
+                    kex_group.send_init(s)
                     kex_reply = kex_group.recv_reply(s)
                     raw_hostkey_bytes = kex_reply if kex_reply is not None else b''
-                except KexDHException:
+                except Exception:  # Any error while talking to (or parsing the reply of) a misbehaving server only fails this probe, not the whole audit.
                     msg = "Failed to parse server's host key."
                     if not out.debug:
                         msg += "  Re-run in debug mode to see stack trace."
